@@ -4,6 +4,8 @@ pub mod c11;
 pub mod c15;
 pub mod c17;
 pub mod c19;
+pub mod c13;
+pub mod c04;
 pub mod c18;
 
 pub fn lookup(id: &str) -> Option<&'static dyn Prop> {
@@ -13,6 +15,8 @@ pub fn lookup(id: &str) -> Option<&'static dyn Prop> {
         "C15" => Some(&c15::C15),
         "C17" => Some(&c17::C17),
         "C19" => Some(&c19::C19),
+        "C13" => Some(&c13::C13),
+        "C04" => Some(&c04::C04),
         "C18" => Some(&c18::C18),
         _ => None,
     }
